@@ -114,10 +114,10 @@ StepOK(o, a) ==
 MInit == /\ stage = "module" /\ op = "" /\ args = <<>> /\ exp = Refused /\ impl = Refused /\ ideal = Refused /\ why = {}
          /\ \E d1 \in InDts, d2 \in InDts, s1 \in InShapes, s2 \in InShapes : env = <<Mk(d1, s1, 1), Mk(d2, s2, 2)>>
          /\ prog = <<>> /\ cur = ""
-\* two-phase step (keeps random simulation cheap): first the operator, then one of its enabled instances
+\* two-phase step (keeps random simulation cheap): first the operator, then one of its enabled instances;
+\* an operator without an enabled instance in the current environment is given back (Retry)
 Choose == /\ cur = "" /\ Len(prog) < MaxSteps
-          /\ \E o \in ModOps : /\ \E a \in ModMenu(o, env) : StepOK(o, Inst(a, env))
-                                /\ cur' = o
+          /\ \E o \in ModOps : Registered(o) /\ cur' = o
           /\ UNCHANGED <<vars, env, prog>>
 Apply == /\ cur \in ModOps
          /\ \E a \in ModMenu(cur, env) :
@@ -127,15 +127,18 @@ Apply == /\ cur \in ModOps
                /\ prog' = Append(prog, [op |-> cur, args |-> a])
          /\ cur' = ""
          /\ UNCHANGED vars
+Retry == /\ cur \in ModOps
+         /\ \A a \in ModMenu(cur, env) : ~StepOK(cur, Inst(a, env))
+         /\ cur' = "" /\ UNCHANGED <<vars, env, prog>>
 Finish == /\ cur = "" /\ Len(prog) = MaxSteps /\ cur' = "done" /\ UNCHANGED <<vars, env, prog>>
-MNext == Choose \/ Apply \/ Finish
+MNext == Choose \/ Apply \/ Retry \/ Finish
 MSpec == MInit /\ [][MNext]_<<vars, mvars>>
 
 \* design invariant: promotion casts followed by the repaired same-type lowering compute the module's values
-PipelineOK == \A k \in 1..Len(prog) :
-                 LET inst == Inst(prog[k].args, env) IN SameRes(ModLow(prog[k].op, inst, {}), One(env[k + 2]))
-EnvWellFormed == \A k \in 1..Len(env) : /\ env[k].dt \in AllDts /\ ValidShape(env[k].shape) /\ Len(env[k].data) = Numel(env[k].shape)
-                                        /\ \A j \in 1..Len(env[k].data) : ValOK(env[k].dt, env[k].data[j])
+PipelineOK == Len(prog) > 0 =>          \* checked in every state, so the newest step suffices
+                 LET k == Len(prog) inst == Inst(prog[k].args, env) IN SameRes(ModLow(prog[k].op, inst, {}), One(env[k + 2]))
+EnvWellFormed == LET k == Len(env) IN /\ env[k].dt \in AllDts /\ ValidShape(env[k].shape) /\ Len(env[k].data) = Numel(env[k].shape)
+                                      /\ \A j \in 1..Len(env[k].data) : ValOK(env[k].dt, env[k].data[j])
 EmitModules == cur = "done" => PrintT("C08MOD " \o ToJson([env |-> env, prog |-> prog]))
 \* vacuity witnesses (must be VIOLATED): a full-length module exists; one with a promoted mixed-type step exists
 NoFullModule == cur # "done"
